@@ -695,6 +695,8 @@ def _drive(case, ctx, w, servers, client, tymist):
                 xhop = rh.get("X-Hop") if hasattr(rh, "get") else None
                 if e.get("status") in (301, 302, 303, 307) and xhop is not None and xhop.isdigit() and int(xhop) < len(req["hops"]):
                     target = req["hops"][int(xhop)]["target"]
+                    # the chain ends here: the remaining hops of this request will never be requested
+                    w.expected = [k for k in w.expected if not (k[0] == got_id and k[1] > int(xhop))]
                     if target == "downgrade":
                         ctx.count("downgrade_refused_entry_is_the_redirect")
                     else:
